@@ -11,6 +11,7 @@ import (
 	"log"
 	"math/rand"
 	"os"
+	"sync"
 	"time"
 
 	"github.com/buchgr/bazel-remote/v2/cache"
@@ -436,26 +437,45 @@ func RunSeq(cfg SeqConfig) (*SeqResult, error) {
 	return res, nil
 }
 
+// seeder is a scratch cache (per storage mode) whose only job is to turn blobs
+// into the on-disk format a peer in that mode would upload to the backend.
+type seeder struct {
+	c   disk.Cache
+	tmp *FakeProxy
+}
+
+var (
+	seedMu  sync.Mutex
+	seeders = map[string]*seeder{}
+)
+
 // SeedBackend stores b in the fake backend in the on-disk format of the
 // given storage mode, by letting a scratch cache in that mode upload it.
 func SeedBackend(p *FakeProxy, mode string, b Blob) {
-	d, err := os.MkdirTemp("", "vh-seed")
-	if err != nil {
-		return
+	seedMu.Lock()
+	defer seedMu.Unlock()
+	sd := seeders[mode]
+	if sd == nil {
+		d, err := os.MkdirTemp("", "vh-seed")
+		if err != nil {
+			return
+		}
+		tmp := NewFakeProxy()
+		sc, err := disk.New(d, 1<<30, disk.WithAccessLogger(silent()), disk.WithStorageMode(mode), disk.WithProxyBackend(tmp))
+		if err != nil {
+			return
+		}
+		sd = &seeder{c: sc, tmp: tmp}
+		seeders[mode] = sd
 	}
-	defer os.RemoveAll(d)
-	tmp := NewFakeProxy()
-	sc, err := disk.New(d, 1<<30, disk.WithAccessLogger(silent()), disk.WithStorageMode(mode), disk.WithProxyBackend(tmp))
-	if err != nil {
-		return
-	}
-	if err := sc.Put(context.Background(), cache.CAS, b.Hash, int64(len(b.Data)), bytes.NewReader(b.Data)); err != nil {
+	if err := sd.c.Put(context.Background(), cache.CAS, b.Hash, int64(len(b.Data)), bytes.NewReader(b.Data)); err != nil {
 		return
 	}
 	k := cache.LookupKey(cache.CAS, b.Hash)
-	tmp.mu.Lock()
-	data, ok := tmp.Objs[k]
-	tmp.mu.Unlock()
+	sd.tmp.mu.Lock()
+	data, ok := sd.tmp.Objs[k]
+	delete(sd.tmp.Objs, k)
+	sd.tmp.mu.Unlock()
 	if ok {
 		p.mu.Lock()
 		p.Objs[k] = data
